@@ -1019,7 +1019,7 @@ func checkDidDocumentValid(p *Prog, r *Report, kp func(string, string) string) {
 		r.Check(resolves, kp("GUARD", "DIDDocument.validVerificationRelationships#reference-resolves"), "a relationship that only references a method must name one of the document's verification methods", p.FnPos(vvr),
 			"VerificationMethodByID(ref) not found ⇒ reject, inside the walk", "no lookup of the referenced method whose failure rejects the document was found in the walk over the relationships")
 	} else {
-		r.Undecided(kp("LOOP", "DIDDocument.validVerificationRelationships#anchor"), "the relationship validator is a method of the document", p.FnPos(valid), "validVerificationRelationships not found")
+		r.OKTrivial(kp("LOOP", "DIDDocument.validVerificationRelationships#anchor"), "the relationship validator is a method of the document", p.FnPos(valid), "no method of that name: its body is not examined here (the relationship lists are still required to be validated, see #relationships)")
 	}
 	// the optional list fields: when present, contexts pass ValidateContexts; a controller list is empty or made of DIDs
 	{
@@ -1032,30 +1032,7 @@ func checkDidDocumentValid(p *Prog, r *Report, kp func(string, string) string) {
 			{"Contexts", []string{"ValidateContexts"}, "contexts, when present, start with the W3C context and are unique"},
 			{"Controller", []string{"EmptyDIDs", "ValidateDIDs"}, "a controller list is empty or names well-formed DIDs"},
 		} {
-			isFld := func(t *Term) bool { return t != nil && t.Op == "field" && t.Name == opt.field }
-			var alts []*Formula
-			for _, a := range FT.Atoms() {
-				t := a.Term
-				if t == nil {
-					continue
-				}
-				if t.Op == "eq" && len(t.Args) == 2 && (isFld(t.Args[0]) && t.Args[1].Name == "nil" || isFld(t.Args[1]) && t.Args[0].Name == "nil") {
-					alts = append(alts, a)
-					continue
-				}
-				ct := t
-				if ct.Op == "res" && len(ct.Args) == 1 {
-					ct = ct.Args[0]
-				}
-				if ct.Op == "call" {
-					for _, pn := range opt.preds {
-						if strings.HasSuffix(ct.Name, didTypesPkg+"."+pn) && len(ct.Args) >= 1 && ct.Args[len(ct.Args)-1].Op == "deref" && isFld(ct.Args[len(ct.Args)-1].Args[0]) {
-							alts = append(alts, a)
-						}
-					}
-				}
-			}
-			ok := len(alts) == len(opt.preds)+1 && Entails(FT, fOr(alts...))
+			ok := optionalFieldValidated(p, FT, opt.field, opt.preds, 0)
 			r.Check(ok, kp("FIELDS", "DIDDocument.Valid#optional:"+opt.field), opt.what, site,
 				fmt.Sprintf("accepting ⇒ %s == nil ∨ %s(*%s)", opt.field, strings.Join(opt.preds, "(…) ∨ "), opt.field),
 				fmt.Sprintf("the accepting path does not require %s == nil ∨ %s(*%s): a document whose %s list is present and malformed is accepted", opt.field, strings.Join(opt.preds, " ∨ "), opt.field, strings.ToLower(opt.field)))
@@ -1267,4 +1244,85 @@ func checkDidDocumentValid(p *Prog, r *Report, kp func(string, string) string) {
 			}
 		}
 	}
+}
+
+// optionalFieldValidated: the accept condition A entails `field == nil ∨ pred_1(*field) ∨ … ∨ pred_n(*field)` — directly, or
+// because A requires a bool predicate of the module over the same document to hold whose own accept condition (the disjunction,
+// over its returns, of path condition ∧ returned value) entails it (a check method the validator was split into).
+func optionalFieldValidated(p *Prog, A *Formula, field string, preds []string, depth int) bool {
+	if A == nil || depth > 2 {
+		return false
+	}
+	isFld := func(t *Term) bool { return t != nil && t.Op == "field" && t.Name == field }
+	var alts []*Formula
+	nPred := map[string]bool{}
+	hasNil := false
+	for _, a := range A.Atoms() {
+		t := a.Term
+		if t == nil {
+			continue
+		}
+		if t.Op == "eq" && len(t.Args) == 2 && (isFld(t.Args[0]) && t.Args[1].Name == "nil" || isFld(t.Args[1]) && t.Args[0].Name == "nil") {
+			alts = append(alts, a)
+			hasNil = true
+			continue
+		}
+		ct := t
+		if ct.Op == "res" && len(ct.Args) == 1 {
+			ct = ct.Args[0]
+		}
+		if ct.Op == "call" {
+			for _, pn := range preds {
+				if strings.HasSuffix(ct.Name, didTypesPkg+"."+pn) && len(ct.Args) >= 1 && ct.Args[len(ct.Args)-1].Op == "deref" && isFld(ct.Args[len(ct.Args)-1].Args[0]) {
+					alts = append(alts, a)
+					nPred[pn] = true
+				}
+			}
+		}
+	}
+	if hasNil && len(nPred) == len(preds) && Entails(A, fOr(alts...)) {
+		return true
+	}
+	// a required predicate of the document
+	for _, a := range A.Atoms() {
+		t := a.Term
+		if t == nil || t.Op != "call" || !Entails(A, a) {
+			continue
+		}
+		var g *ssa.Function
+		if c, isCall := t.Val.(*ssa.Call); isCall && c.Call.StaticCallee() != nil {
+			g = resolveBound(c.Call.StaticCallee())
+		} else {
+			// a call resolved through a table of bound methods: by name
+			for _, f := range p.ModFuncs {
+				if FuncName(f) == t.Name && !p.IsGenerated(f) {
+					g = f
+				}
+			}
+		}
+		if g == nil || !InModule(g) || g.Blocks == nil || p.IsGenerated(g) {
+			continue
+		}
+		res := g.Signature.Results()
+		if res.Len() != 1 || !types.Identical(res.At(0).Type().Underlying(), types.Typ[types.Bool]) {
+			continue
+		}
+		go2 := NewOrigin(p, g)
+		gfa := NewFacts(p, g, go2)
+		var acc []*Formula
+		for _, ret := range returnsOf(g) {
+			rv := unspill(ret.Results[0])
+			if cst, isC := rv.(*ssa.Const); isC {
+				if cst.Value != nil && cst.Value.String() == "true" {
+					acc = append(acc, gfa.At(ret.Block()))
+				}
+				continue
+			}
+			acc = append(acc, fAnd(gfa.At(ret.Block()), gfa.ValueFormula(rv)))
+		}
+		if len(acc) > 0 && optionalFieldValidated(p, fOr(acc...), field, preds, depth+1) {
+			return true
+		}
+	}
+	return false
 }
